@@ -28,6 +28,12 @@
     cancels the token) is dropped at some later time; the model lets a worker observe
     cancellation at any time after its entry left the map (or the manager died).
 
+    Not modelled: the early returns of path() for wildcard addresses and src = dst (no
+    synchronisation involved), the idle flag [was_used_in_idle_period] and all timing (an idle
+    exit and a refetch are possible whenever the worker sleeps), the contents of the path cache
+    (a slot store may write Some only after some lookup returned paths).  A caller may give up
+    at any point of path() ([LAbandon]: the future is dropped, e.g. by path_timeout).
+
     [strict = true] is the semantics the theorems are about and the one used to check traces of
     current-thread runs.  [strict = false] trusts the logged value of lock-free observations
     (they are logged next to, not atomically with, the operation; on a multi-thread runtime the
@@ -43,8 +49,9 @@ Inductive fres := FOk | FEmpty | FErr.
 Inductive xreason := XMgrDropped | XCancelled | XIdle.
 (** values of [current_error] *)
 Inductive perr := ENoPaths | EInternal | EExit (r : xreason).
-(** what a caller gets: a path | cached_path's None | an error *)
-Inductive wres := RPath | RNone | RErr (e : perr).
+(** what a caller gets: a path | cached_path's None | an error | nothing, because it gave up
+    (path_timeout elapsed: the path() future is dropped) *)
+Inductive wres := RPath | RNone | RErr (e : perr) | RTimeout.
 
 (** worker control state (one worker per path set, spawned by [manage()]) *)
 Inductive wctl :=
@@ -55,7 +62,7 @@ Inductive wctl :=
 | WCompleted            (* last locked block done (flags cleared, notify_waiters) *)
 | WSleeping             (* in select!; holds no strong reference to the manager *)
 | WExiting (r : xreason)(* [maintain] returned reason r *)
-| WExit2 (r : xreason)  (* removed the pair's entry from the map *)
+| WExit2 (r : xreason)  (* past the removal of the pair's entry from the map *)
 | WExit3                (* exit block done: flags cleared, notify_waiters, error set *)
 | WExited               (* active slot cleared; task finished *)
 | WBug.                 (* fetch_and_update found ongoing_start already set (debug_assert) *)
@@ -106,6 +113,9 @@ Inductive label :=
 | LWake (i : nat)                           (* the Notified future completes *)
 | LLoad2 (i : nat) (got : bool)             (* second slot load *)
 | LErr (i : nat) (r : wres)                 (* current_error() and the value path() returns *)
+| LAbandon (i : nat)                        (* the caller drops its path() future (path_timeout) *)
+| LExpired (i : nat) (r : wres)             (* the path read from the slot is expired at the caller's [now]:
+                                               path() returns NoPathsFound, cached_path() None *)
 (* workers *)
 | LBegin (e : nat)                          (* upgrade + first locked block of fetch_and_update *)
 | LFetched (e : nat) (r : fres)             (* the lookup finishes *)
@@ -115,6 +125,7 @@ Inductive label :=
 | LRelease (e : nat)                        (* strong manager reference dropped *)
 | LQuit (e : nat) (r : xreason)             (* [maintain] returns *)
 | LExitRemove (e : nat)                     (* exit: stop_managing_paths removed an entry *)
+| LExitSkip (e : nat)                       (* exit: nothing to remove (manager gone or pair not managed) *)
 | LExitBlock (e : nat)                      (* exit: locked block *)
 | LExitClear (e : nat)                      (* exit: active_path.store(None) *)
 (* user *)
@@ -162,7 +173,7 @@ Definition err_result (p : pset) : wres :=
   match cerr p with Some x => RErr x | None => RErr ENoPaths end.
 Definition wres_eqb (a b : wres) : bool :=
   match a, b with
-  | RPath, RPath | RNone, RNone => true
+  | RPath, RPath | RNone, RNone | RTimeout, RTimeout => true
   | RErr ENoPaths, RErr ENoPaths | RErr EInternal, RErr EInternal => true
   | RErr (EExit XMgrDropped), RErr (EExit XMgrDropped)
   | RErr (EExit XCancelled), RErr (EExit XCancelled)
@@ -246,6 +257,17 @@ Definition step (l : label) (s : state) : option state :=
       then Some (set_w s i (ADone r)) else None
     | _ => None
     end
+  | LAbandon i =>
+    match wts s i with
+    | APeeked | AHandle _ | ALoaded _ | AReg _ _ | AAwaited _ | ALoaded2 _ =>
+      Some (set_w s i (ADone RTimeout))
+    | _ => None
+    end
+  | LExpired i r =>
+    match wts s i, r with
+    | ADone RPath, RNone | ADone RPath, RErr ENoPaths => Some (set_w s i (ADone r))
+    | _, _ => None
+    end
   | LBegin e =>
     if (e <? nps s) && chk (alive s) then
       let p := pss s e in
@@ -325,11 +347,18 @@ Definition step (l : label) (s : state) : option state :=
       | _ => None
       end
     else None
+  | LExitSkip e =>
+    if (e <? nps s) && chk (negb (alive s) || negb (has_entry s)) then
+      let p := pss s e in
+      match wc p with
+      | WExiting r => Some (set_p s e (set_wc p (WExit2 r)))
+      | _ => None
+      end
+    else None
   | LExitBlock e =>
     if e <? nps s then
       let p := pss s e in
       let r := match wc p with
-               | WExiting r => if chk (negb (alive s) || negb (has_entry s)) then Some r else None
                | WExit2 r => Some r
                | _ => None end in
       match r with
